@@ -27,6 +27,16 @@ def is_hash_ty(t):
 LOOP_ADAPTORS = {"iter", "into_iter", "iter_mut", "chain", "cloned", "copied", "enumerate", "rev", "by_ref", "keys", "values", "into_keys", "into_values", "drain"}
 
 
+def sensitivity(cls):
+    """How much of the iteration order a consumer class lets through: 0 = none (a set / a reduction that ignores order),
+    1 = the order of independent effects (calls, appends), 2 = everything (a sequence, a pick, state carried between iterations)."""
+    if cls.startswith(("collect:set", "reduce:", "sorted")):
+        return 0
+    if cls in ("loop:calls-only", "for_each:extend"):
+        return 1
+    return 2
+
+
 def classify(n, ps):
     top = n
     for anc, key in reversed(ps):
@@ -183,12 +193,14 @@ def check(fx, rep, tier):
                 sample={"rule": "R02.1", "source": key, "class": cls, "reviewed": False},
             )
             continue
+        # the reviewed argument covers any consumer that lets through no more of the order than the reviewed one did (the same
+        # source rewritten from a collected queue to a loop over the iterator is the same consumer)
         rep.oblige(
-            row[1] == cls,
+            row[1] == cls or sensitivity(cls) <= sensitivity(row[1]),
             "R02.1",
             f"order-source:{key}",
             w,
-            f"the consumer of the hash-ordered iteration in `{name}` changed from `{row[1]}` to `{cls}`: the reviewed argument ({row[2][:80]}...) no longer applies",
+            f"the consumer of the hash-ordered iteration in `{name}` changed from `{row[1]}` to `{cls}`, which lets more of the order through: the reviewed argument ({row[2][:80]}...) no longer applies",
             sample={"rule": "R02.1", "source": key, "class": cls, "backing": row[2][:100]},
         )
     stale = sorted(set(rows) - set(found))
